@@ -36,7 +36,8 @@ def checksum (hrp : List UInt8) (data : List Nat) : List Nat :=
   let pm := polymod (hrpExpand hrp ++ data ++ [0, 0, 0, 0, 0, 0]) ^^^ 1
   (List.range 6).map fun i => (pm >>> (5 * (5 - i))) &&& 31
 
-/-- `convert_bits(data, 8, 5, pad = true)`: regroup bytes into 5-bit symbols -/
+/-- `convert_bits(data, 8, 5, pad = true)` as the crate computes it (accumulator form); kept as a
+cross-check of the bit-level definition below -/
 def toBase32Aux : List UInt8 → (acc bits : Nat) → List Nat
   | [], acc, bits => if bits > 0 then [(acc <<< (5 - bits)) &&& 31] else []
   | b :: rest, acc, bits =>
@@ -47,7 +48,27 @@ def toBase32Aux : List UInt8 → (acc bits : Nat) → List Nat
     else
       ((acc >>> (bits - 5)) &&& 31) :: toBase32Aux rest acc (bits - 5)
 
-def toBase32 (data : List UInt8) : List Nat := toBase32Aux data 0 0
+def toBase32Acc (data : List UInt8) : List Nat := toBase32Aux data 0 0
+
+/-- the eight bits of a byte, most significant first -/
+def byteBits (b : UInt8) : List Bool := (List.range 8).map (fun i => b.toNat.testBit (7 - i))
+
+/-- big-endian value of a bit list -/
+def bitsToNat (bs : List Bool) : Nat := bs.foldl (fun acc b => 2 * acc + b.toNat) 0
+
+/-- split into groups of five, the last one padded with zero bits -/
+def chunk5 : List Bool → List (List Bool)
+  | [] => []
+  | a :: b :: c :: d :: e :: rest => [a, b, c, d, e] :: chunk5 rest
+  | l => [l ++ List.replicate (5 - l.length) false]
+
+/-- `ToBase32` (`convert_bits(data, 8, 5, pad = true)`): the bit string of the bytes regrouped
+into 5-bit symbols, zero-padded at the end -/
+def toBase32 (data : List UInt8) : List Nat := (chunk5 (data.flatMap byteBits)).map bitsToNat
+
+#guard (List.range 120).all (fun n =>
+  let d := (List.range (n % 41)).map (fun i => UInt8.ofNat (i * 37 + n * 11 + 3))
+  toBase32 d == toBase32Acc d)
 
 /-- `convert_bits(data, 5, 8, pad = false)` as `Vec::<u8>::from_base32` does -/
 def fromBase32 (data : List Nat) : Option (List UInt8) := Id.run do
